@@ -3,6 +3,7 @@ import GodiProofs.Container.BuildLedger
 import GodiProofs.Container.BuildOrder
 import GodiProofs.Container.NoCaptive
 import GodiProofs.Container.TransientFresh
+import GodiProofs.Container.RankOfVerdict
 /-! The executable hypothesis checkers are sound: `failedHyps descs = []` gives every structural
 hypothesis the container theorems assume. -/
 namespace Godi.Container
@@ -95,12 +96,12 @@ theorem instDistinct_of_check {descs : List Desc} (h : instDistinctB descs = tru
 godi's collection, every structural hypothesis of the container theorems holds for them -/
 theorem hyps_of_check {descs : List Desc} (h : failedHyps descs = []) :
     WF descs ∧ RegWF descs ∧ InstSingleton descs ∧ InstDistinct descs ∧ KeysDistinct descs ∧ ServiceUnique descs ∧
-    LongCtor descs 0 ∧ ¬ TransCtor descs 0 := by
+    LongCtor descs 0 ∧ ¬ TransCtor descs 0 ∧ SibDeps descs ∧ DepKeys descs := by
   unfold failedHyps at h
   have e : ∀ (b : Bool) (s : String), (if b then ([] : List String) else [s]) = [] → b = true := by
     intro b s hb; cases b <;> simp at hb ⊢
   simp only [List.append_eq_nil_iff] at h
-  obtain ⟨⟨⟨⟨⟨⟨⟨⟨⟨⟨⟨a1, a2⟩, a3⟩, a4⟩, a5⟩, a6⟩, a7⟩, a8⟩, a9⟩, a10⟩, a11⟩, a12⟩ := h
+  obtain ⟨⟨⟨⟨⟨⟨⟨⟨⟨⟨⟨⟨⟨a1, a2⟩, a3⟩, a4⟩, a5⟩, a6⟩, a7⟩, a8⟩, a9⟩, a10⟩, a11⟩, a12⟩, a13⟩, a14⟩ := h
   have rw' := regWF_of_check (e _ _ a3) (e _ _ a4) (e _ _ a5) (e _ _ a6) (e _ _ a7) (e _ _ a8)
   exact ⟨wf_of_check (e _ _ a1) (e _ _ a2), rw',
     instSingleton_of_check (e _ _ a9), instDistinct_of_check (e _ _ a10),
@@ -115,6 +116,18 @@ theorem hyps_of_check {descs : List Desc} (h : failedHyps descs = []) :
       unfold ctorZeroB at this
       rintro ⟨d, hd, hc, _⟩
       have := (List.all_eq_true.1 this) d hd
-      simp [hc] at this⟩
+      simp [hc] at this, by
+      have := e _ _ a13
+      unfold sibDepsB at this
+      intro d hd d' hd' hc
+      have := (List.all_eq_true.1 ((List.all_eq_true.1 this) d hd)) d' hd'
+      simp [hc] at this
+      exact this, by
+      have := e _ _ a14
+      unfold depKeysB at this
+      intro d hd dep hdep hg
+      have := (List.all_eq_true.1 ((List.all_eq_true.1 this) d hd)) dep hdep
+      simp [hg] at this
+      exact this⟩
 
 end Godi.Container
